@@ -10,7 +10,9 @@ import (
 func HPrfPrime() {
 	lik, lck, lid := vr.Param(0), vr.Param(1), vr.Param(2)
 	ik, ck, id := vr.Bytes(lik), vr.Bytes(lck), vr.Bytes(lid)
-	kenc, kaut, kre, msk, emsk, err := EapAkaPrimePRF(append([]byte{}, ik...), append([]byte{}, ck...), string(id))
+	gik, gck := VGuarded(ik), VGuarded(ck)
+	kenc, kaut, kre, msk, emsk, err := EapAkaPrimePRF(gik[:lik], gck[:lck], string(id))
+	vr.Assert("c16.arguments-untouched", vr.All(VGuardIntact(gik, ik), VGuardIntact(gck, ck)))
 	vr.Assert("c16.noerr", err == nil)
 	if err != nil {
 		return
